@@ -98,9 +98,27 @@ pub fn gen_flow_function(r: &mut Rng, fo: &FlowOpts) -> FlowCase {
                 tags.insert("read-twice".into());
             } else if with_intr && p < 27 {
                 *ins.operation_mut() = Operation::intrinsic(gen_intrinsic(r, &pool, &mut tags));
-            } else if with_branch && p < 33 && k + 1 == n && pos + 1 == nb {
+            } else if with_branch && p < 33 && k + 1 == n && (pos + 1 == nb || r.chance(1, 3)) {
                 *ins.operation_mut() = Operation::branch(gen_expr(r, &o, o.addr_bits, 1));
                 tags.insert("branch".into());
+            }
+        }
+    }
+    // definitions whose only reader is a guard: make the last instruction of some blocks with guarded
+    // out-edges assign a scalar that the guard reads
+    let guarded: Vec<(usize, il::Scalar)> = f
+        .edges()
+        .iter()
+        .filter_map(|e| e.condition().and_then(|c| c.scalars().first().map(|s| (e.head(), (*s).clone()))))
+        .collect();
+    for (h, s) in guarded {
+        if !r.chance(1, 3) { continue; }
+        let src = gen_expr(r, &o, s.bits(), 1);
+        let b = f.block_mut(h).unwrap();
+        if let Some(last) = b.instructions_mut().last_mut() {
+            if !matches!(last.operation(), Operation::Branch { .. } | Operation::Intrinsic { .. }) {
+                *last.operation_mut() = Operation::assign(s.clone(), src);
+                tags.insert("def-for-guard".into());
             }
         }
     }
